@@ -76,6 +76,64 @@ def build_bin(profile):
     return rc == 0, out
 
 
+def crosscheck_scratch(ck, name="scratch", sample=150):
+    """Re-evaluates a sample of the scratch traces with vm_compute inside Coq and demands what the
+    extracted OCaml model printed.  Returns the number of cases checked."""
+    d = os.path.join(ck.work, name)
+    try:
+        cases = open(os.path.join(d, "scratch.cases")).read().splitlines()
+        model = open(os.path.join(d, "scratch.model")).read().splitlines()
+    except OSError:
+        return 0
+    n = min(len(cases), len(model))
+    if n == 0:
+        return 0
+
+    def op(tok):
+        f = [int(x, 16) for x in tok[1:].split(":")]
+        return ("OPush %d %d" % tuple(f)) if tok[0] == "p" else ("OPop %d %d %d" % tuple(f))
+
+    def out(tok):
+        if tok[0] in "sha" and tok not in ("ok", "err", "panic", "bad"):
+            return "SPushed (%s %d)" % ({"s": "HStack", "h": "HHeap", "a": "HAlloc"}[tok[0]], int(tok[1:], 16))
+        return {"ok": "SPopOk", "err": "SPopErr", "panic": "SPopPanic", "bad": "SBadIndex"}[tok]
+
+    step = max(1, n // sample)
+    lines = ["From Coq Require Import NArith List.", "From DC Require Import Scratch.", "Import ListNotations.",
+             "Open Scope N_scope.",
+             "Definition obs (r : list step_out * scratch) :=",
+             "  (fst r, (pos (stack (snd r)), option_map pos (heap (snd r)), N.of_nat (length (allocs (snd r))))).", ""]
+    picked = 0
+    for i in range(0, n, step):
+        t = cases[i].split()
+        left, _, right = model[i].partition("|")
+        st = right.split()
+        if len(t) < 2 or len(st) != 3 or len(t) > 40:
+            continue
+        heap = "None" if st[1] == "-" else "Some %d" % int(st[1], 16)
+        lines.append("Example x%d : obs (run_trace [%s] init []) = ([%s], (%d, %s, %d)).\nProof. vm_compute. reflexivity. Qed." % (
+            i, "; ".join(op(x) for x in t[1:]), "; ".join(out(x) for x in left.split()),
+            int(st[0], 16), heap, int(st[2], 16)))
+        picked += 1
+        if picked >= sample:
+            break
+    if not picked:
+        return 0
+    path = os.path.join(ck.work, "XCheck_scratch.v")
+    with open(path, "w") as f:
+        f.write("\n".join(lines) + "\n")
+    rc, o = V.sh(["coqc", "-Q", os.path.join(V.COQ, "frame"), "DC", path], cwd=ck.work, timeout=1200)
+    ck.log("extraction cross-check (scratch): %d sampled traces re-evaluated by vm_compute inside Coq: %s" % (
+        picked, "agree" if rc == 0 else "DISAGREE"))
+    if rc != 0:
+        ck.broken_correspondence("scratch-extraction",
+                                 "vm_compute inside Coq disagrees with the extracted model: " + o[-1200:], [])
+        return 0
+    ck.corr.setdefault("crosscheck", 0)
+    ck.corr["crosscheck"] += picked
+    return picked
+
+
 def run(ck):
     ck.proof_leg("frame", "Properties/C12.v")
     ok, out = V.build_model("frame")
@@ -115,6 +173,7 @@ def run(ck):
             for f in V.corpus_files("C12-scratch"):
                 ck.correspondence("hx-scratch", "scratch", "hx-rpc", extra_args=["--replay", f], name="scratch-corpus", **skw)
             ck.correspondence("hx-scratch", "scratch", "hx-rpc", **skw)
+            crosscheck_scratch(ck)
             ck.correspondence(SCRATCH_DEBUG_EXE, "scratch", "hx-rpc", extra_args=["lifo=800", "free=500"], name="scratch-debug", **skw)
             ck.correspondence("hx-frame", "frame", "hx-rpc", **kw)
             ck.correspondence(DEBUG_EXE, "frame", "hx-rpc", extra_args=["light=1"], name="frame-debug", **kw)
